@@ -75,12 +75,14 @@ EVENTS: list[Any] = []  # server-side hook log (in-process transports only)
 OUT_IS = pa.schema([pa.field("i", pa.int64()), pa.field("s", pa.utf8())])
 OUT_EMPTY = pa.schema([])
 OUT_DICT = pa.schema([pa.field("i", pa.int64()), pa.field("d", pa.dictionary(pa.int8(), pa.utf8()))])
+# 160 columns: the IPC framing of a batch (schema + record-batch message) is far above the 4 KiB a shm writer budgets for it
+OUT_WIDE = pa.schema([pa.field(f"c{j:03d}", pa.int64()) for j in range(160)])
 IN_X = pa.schema([pa.field("x", pa.int64())])
 OUT_XY = pa.schema([pa.field("x", pa.int64()), pa.field("y", pa.int64())])
 
 
 def out_schema(name: str) -> pa.Schema:
-    return {"is": OUT_IS, "empty": OUT_EMPTY, "dict": OUT_DICT}[name]
+    return {"is": OUT_IS, "empty": OUT_EMPTY, "dict": OUT_DICT, "wide": OUT_WIDE}[name]
 
 
 def rows_for(out: str, step: int, n: int) -> dict[str, list[Any]]:
@@ -90,6 +92,8 @@ def rows_for(out: str, step: int, n: int) -> dict[str, list[Any]]:
         return {}
     if out == "dict":
         return {"i": [base + k for k in range(n)], "d": [("a", "b", "c")[(base + k) % 3] for k in range(n)]}
+    if out == "wide":
+        return {f.name: [base + k + j for k in range(n)] for j, f in enumerate(OUT_WIDE)}
     return {"i": [base + k for k in range(n)], "s": [f"r{base + k}" for k in range(n)]}
 
 
@@ -504,6 +508,10 @@ def expected(call: Call) -> list[Any]:
                 break
             acts = steps[k] if k < len(steps) else [["echo", 1, None]]
             xs = spec if isinstance(spec, list) else spec.get("expect_x")
+            if isinstance(spec, dict) and "expect_x" in spec and spec["expect_x"] is None:
+                # an input the framework refuses before process() runs: some error, nothing of this step is observed
+                tr.append(["error", None, None])
+                return tr
             emitted = None
             xpost: list[Any] = []
             for act in acts:
